@@ -274,6 +274,7 @@ func checkC01(w *World, r *Run) {
 		checkCacheMutators(w, r, c)
 	}
 	checkRangeOverlapTests(w, r)
+	checkTxFinalization(w, r)
 	r.NotCovered("content equality of what is read back, sizes/ETags as values, the comparison with a reference S3 model over histories; part-store compositions (C15–C19)")
 	_ = strings.ToLower
 }
